@@ -146,12 +146,25 @@ def wellformed(model, arg_models):
         for p in model.parameters:
             if not (p.lower <= p.init <= p.upper):
                 probs.append(f"parameter {p.name}: init {p.init} outside [{p.lower}, {p.upper}]")
-        names = list(model.parameters.names)
-        if len(set(names)) != len(names):
-            probs.append(f"duplicate parameter names {sorted(n for n in set(names) if names.count(n) > 1)}")
-        rn = list(model.random_variables.names)
-        if len(set(rn)) != len(rn):
-            probs.append(f"duplicate random variable names {sorted(n for n in set(rn) if rn.count(n) > 1)}")
+        def dups(xs):
+            xs = list(xs)
+            return {n for n in set(xs) if xs.count(n) > 1}
+
+        # (delta form, like the undefined symbols below: a duplicate that an argument model already has is the fault of
+        # the call that made it, not of every later call that passes it on)
+        had_p, had_r = set(), set()
+        for _, m in arg_models:
+            try:
+                had_p |= dups(m.parameters.names)
+                had_r |= dups(m.random_variables.names)
+            except Exception:
+                pass
+        dp = dups(model.parameters.names) - had_p
+        if dp:
+            probs.append(f"duplicate parameter names {sorted(dp)}")
+        dr = dups(model.random_variables.names) - had_r
+        if dr:
+            probs.append(f"duplicate random variable names {sorted(dr)}")
         und = undefined_symbols(model)
         base = set()
         for _, m in arg_models:
